@@ -61,7 +61,20 @@ def generate(rng, tier, index):
             ops.append(dict(op="steps", n=o.randint(1, 3)))
         else:
             ops.append(dict(op=k))
-    return dict(mode=mode, n0=n0, ops=ops, alloc=rng.derive("a").choice([2, 2, 1]), seed=rng.derive("s").u64() % 10**9)
+    hy = rng.derive("hybrid")
+    extra = {}
+    if mode in ("mercurius", "trace"):
+        # the hybrid integrators keep encounter bookkeeping (maps, counters, per-pair flags) that particle removal has to maintain: make sure steps with
+        # encounters / pericentre switching precede runs of removals
+        extra["hy_dt"], extra["peri_eta"], extra["peri_mode"] = hy.choice([(0.05, None, 0), (0.3, 0.2, 2), (1.0, 0.5, 2), (1.0, 0.2, 2), (0.3, 0.2, 1), (0.05, 2.0, 0)])
+        if mode == "trace" and extra["peri_mode"]:
+            # a pericentre switch integrates the *whole* system with IAS15 / BS: with hundreds of bodies one step costs minutes (slow, not a finding)
+            ops = [dict(op="add", hash="unique", pick=x.get("n", 0)) if x["op"] == "add_many" else x for x in ops]
+        if hy.chance(0.5):
+            at = hy.randint(0, len(ops))
+            burst = [dict(op="steps", n=hy.randint(1, 3))] + [dict(op="remove", index="valid", pick=hy.randint(0, 500), keep_sorted=hy.choice([0, 1])) for _ in range(hy.randint(2, 5))]
+            ops[at:at] = burst
+    return dict(mode=mode, n0=n0, ops=ops, alloc=rng.derive("a").choice([2, 2, 1]), seed=rng.derive("s").u64() % 10**9, **extra)
 
 
 STR_NAMES = ["earth", "mars", "venus", "jupiter", "pluto", "ceres", "io", "europa"]
@@ -98,7 +111,11 @@ def execute(case, ctx):
         sim.dt = 1e-3
     elif mode in ("mercurius", "trace"):
         sim.integrator = mode
-        sim.dt = 0.05
+        sim.dt = case.get("hy_dt", 0.05) if mode == "trace" else 0.05
+        if mode == "trace":
+            if case.get("peri_eta"):
+                sim.ri_trace.peri_crit_eta = case["peri_eta"]
+            sim.ri_trace.peri_mode = case.get("peri_mode", 0)
     else:
         sim.integrator = "leapfrog"
         sim.dt = 1e-3
@@ -108,6 +125,7 @@ def execute(case, ctx):
     pending_tree = []     # uids flagged for deferred removal
     removed_hashes = []
     uid = [0]
+    last_a = [1.0]
     next_hash = [5000]
     kinds = []
 
@@ -124,6 +142,16 @@ def execute(case, ctx):
             else:
                 a = 1.0 + 0.37 * uid[0]
                 kw = dict(m=1e-7, x=a, y=0.0, z=0.0, vx=0.0, vy=a ** -0.5, vz=0.0)
+                if case.get("peri_mode") is not None and i < 12:     # (hundreds of mutually close bodies make one hybrid step cost minutes)
+                    # (cases generated since the hybrid bursts exist) some neighbours within each other's Hill sphere and some eccentric orbits, so that
+                    # steps leave the integrators in their encounter / pericentre modes
+                    w = rr.below(4)
+                    if w == 0 and i >= 2:
+                        a = last_a[0] * 1.004
+                        kw = dict(m=1e-4, x=a, y=0.0, z=0.0, vx=0.0, vy=a ** -0.5, vz=0.0)
+                    elif w == 1:
+                        kw["vy"] *= 0.55
+                last_a[0] = a
         else:
             kw = dict(m=1e-9, x=rr.uniform(-40, 40), y=rr.uniform(-40, 40), z=rr.uniform(-40, 40), vx=0.0, vy=0.0, vz=0.0)
         if isinstance(h, str):
